@@ -43,6 +43,9 @@ Definition classify_step (t : tag) (c : cls) (st : step) : option (tag * cls) :=
   | STopKPerKey _ => if Nat.eqb t TKV then Some (TKG, P) else None
   | SDistinct | SDistinctPerKey => None
   | SJoin _ _ _ => None
+  | SMapWithSide _ _ | SMapWithSideMap _ _ => Some (TU, c)
+  | SFilterWithSide _ _ => Some (t, c)
+  | STryMap _ _ => Some (TRES, c)
   end.
 
 Fixpoint classify_steps (t : tag) (c : cls) (steps : list step) : option (tag * cls) :=
